@@ -900,8 +900,14 @@ fn ports_sound_unit(ctx: &Ctx, seed: u64, st: &mut Stats, id: u64) {
     let ep: u16 = 250 + rng.below(300) as u16; // 16 steps of 16·EP/f_clk: 36..80 ms
     let tp: u16 = 60 + rng.below(200) as u16;
     let mut log: Vec<String> = vec![];
+    // a quarter of the machines are constructed muted and get their sound switched on at run time
+    let muted_at_start = id % 4 == 1;
     let res = catch(|| {
-        let mut m = Machine::new(cfg);
+        let mut m = Machine::new(Cfg { sound: !muted_at_start, ..cfg });
+        if muted_at_start {
+            m.emu.set_sound(true);
+            log.push("constructed with sound off; host: set_sound(true)".into());
+        }
         m.poke_bytes(0x9000, &[0x18, 0xFE]);
         let mut rf = m.regs();
         rf.pc = 0x9000;
